@@ -732,6 +732,37 @@ impl World {
             if snap.matched_items(0..n).count() != n as usize {
                 p("C06", "matched-items-range", "wrong number of items".into());
             }
+            // every form of range bound, forwards and backwards
+            if snap.matched_item_count() as usize != matches.len() {
+                p("C06", "matched-item-count", format!("{} vs {} matches", snap.matched_item_count(), matches.len()));
+            }
+            if snap.get_matched_item(matches.len() as u32).is_some() {
+                p("C06", "get-matched-item-beyond-end", "returned an item for n == matched_item_count".into());
+            }
+            if matches.len() >= 3 {
+                use std::ops::Bound;
+                let len = matches.len() as u32;
+                let (a, b) = (len / 3, (2 * len / 3).max(len / 3 + 1).min(len - 1));
+                let ids = |lo: usize, hi: usize| -> Vec<u32> { matches[lo..hi].iter().filter_map(|m| snap.get_item(m.1).map(|x| x.data.id)).collect() };
+                let got_all: Vec<u32> = snap.matched_items(..).map(|x| x.data.id).collect();
+                let got_ab: Vec<u32> = snap.matched_items(a..b).map(|x| x.data.id).collect();
+                let got_abi: Vec<u32> = snap.matched_items(a..=b).map(|x| x.data.id).collect();
+                let got_exc: Vec<u32> = snap.matched_items((Bound::Excluded(a), Bound::Included(b))).map(|x| x.data.id).collect();
+                let got_to: Vec<u32> = snap.matched_items(..=b).map(|x| x.data.id).collect();
+                let mut got_rev: Vec<u32> = snap.matched_items(a..).rev().map(|x| x.data.id).collect();
+                got_rev.reverse();
+                let exact_len = snap.matched_items(a..b).len();
+                if got_all != ids(0, len as usize)
+                    || got_ab != ids(a as usize, b as usize)
+                    || got_abi != ids(a as usize, b as usize + 1)
+                    || got_exc != ids(a as usize + 1, b as usize + 1)
+                    || got_to != ids(0, b as usize + 1)
+                    || got_rev != ids(a as usize, len as usize)
+                    || exact_len != (b - a) as usize
+                {
+                    p("C06", "matched-items-range", format!("range forms disagree with matches() for a={a} b={b} len={len}"));
+                }
+            }
         }
         // order
         let empty_pattern = snap.pattern().is_empty();
@@ -1104,7 +1135,7 @@ pub fn run_random(opts: &Opts, rep: &mut Report, props: &[&str]) {
         } else {
             *rng.pick(&[1usize, 2, 3, 4, 8, 16])
         };
-        let cols = rng.range(1, 3);
+        let cols = *rng.pick(&[1usize, 1, 2, 2, 3, 3, 4, 5]);
         let mut w = World::new(format!("{}:{}:{}", opts.seed, opts.shard, idx), &mut rng, threads, cols, None);
         let nsteps = if opts.small { rng.range(4, 10) } else { rng.range(5, 60) };
         let mut held: Vec<HeldWriter> = Vec::new();
